@@ -77,7 +77,8 @@ def reader_key(verdict, raw):
 def case_bytes(case):
     if case.get("kind") == "v2":
         n, seed = case["len"], case["seed"]
-        body = bytes(((i * 7 + seed) % 251) for i in range(n))
+        nb = n if case["vc"] & 0xF0 == 0x20 else min(n, 64)
+        body = bytes(((i * 7 + seed) % 251) for i in range(nb))
         return b"\r\n\r\n\x00\r\nQUIT\n" + bytes([case["vc"], case["fam"], (n >> 8) & 255, n & 255]) + body + b"GET /"
     return bytes.fromhex(case.get("in", ""))
 
